@@ -75,6 +75,27 @@ exit 0
 "#;
 
 
+/// The command all rsync environments of this process use. The script is
+/// written exactly once, and `run_c37` calls this before it starts any
+/// thread: a file that is still open for writing in ANY process (a child
+/// forked by another thread inherits the descriptor until its exec) cannot
+/// be executed (ETXTBSY).
+fn fake_rsync_command() -> String {
+    static COMMAND: std::sync::OnceLock<String> = std::sync::OnceLock::new();
+    COMMAND.get_or_init(|| {
+        if !std::path::Path::new("/bin/sh").exists() {
+            return std::env::current_exe().unwrap().to_string_lossy().into_owned()
+        }
+        let dir = Box::leak(Box::new(tempfile::tempdir().expect("tempdir")));
+        let script = dir.path().join("fake-rsync.sh");
+        std::fs::write(&script, FAKE_RSYNC_SH).unwrap();
+        use std::os::unix::fs::PermissionsExt;
+        std::fs::set_permissions(&script, std::fs::Permissions::from_mode(0o755)).unwrap();
+        script.to_string_lossy().into_owned()
+    }).clone()
+}
+
+
 //------------ Environments --------------------------------------------------
 
 /// What a run can observe about fetches.
@@ -118,18 +139,11 @@ impl RsyncEnv {
         let log = dir.path().join("rsync.log");
         let mut config = Config::default_with_paths(dir.path().join("none.conf"), cache.clone());
         config.disable_rrdp = true;
-        // The fake rsync: a dash script using builtins only (1 ms per
-        // invocation); without /bin/sh, this binary's `--fake-rsync` mode.
-        let script = dir.path().join("fake-rsync.sh");
-        if std::path::Path::new("/bin/sh").exists() {
-            std::fs::write(&script, FAKE_RSYNC_SH).unwrap();
-            use std::os::unix::fs::PermissionsExt;
-            std::fs::set_permissions(&script, std::fs::Permissions::from_mode(0o755)).unwrap();
-            config.rsync_command = script.to_string_lossy().into_owned();
-        }
-        else {
-            config.rsync_command = std::env::current_exe().unwrap().to_string_lossy().into_owned();
-        }
+        // The fake rsync: one dash script per process (builtins only, 1 ms
+        // per invocation), written by `fake_rsync_command` before any lane
+        // or worker thread exists; without /bin/sh this binary's
+        // `--fake-rsync` mode.
+        config.rsync_command = fake_rsync_command();
         config.rsync_args = Some(vec!["--fake-rsync".into(), log.to_string_lossy().into_owned()]);
         config.rsync_timeout = Some(Duration::from_secs(60));
         // Writing a script and executing it right away can fail with ETXTBSY when
@@ -707,6 +721,8 @@ pub fn run_c37(ctx: &mut Ctx) {
         depth-first from the real code's enabled sets (exhaustive scenarios) or by random walk \
         (larger scenarios); distinct = distinct (variant, scenario, event trace)".into();
     let mut envs = Envs { rsync: None, rrdp: None };
+    // Before any other thread exists (see there).
+    let _ = fake_rsync_command();
     if let Some(inputs) = ctx.replay_inputs() {
         for input in inputs { run_input(ctx, &mut envs, &input) }
         return
